@@ -2,7 +2,8 @@
    implementation was observed to do, compared with the model by vm_compute. *)
 From Coq Require Import String List NArith ZArith Bool.
 From J5V.lib Require Import Outcome Corr Json JsonPrint Base64 Civil Decimal.
-From J5V.model Require Import CodecTypes CodecEnc CodecEncDec.
+From J5V.model Require Import CodecTypes CodecEnc CodecEncDec CodecDecScalar CodecDec.
+From J5V.proofs Require Import CodecEncDecProofs.
 Import ListNotations.
 Local Open Scope N_scope.
 Local Open Scope bool_scope.
@@ -84,7 +85,7 @@ Inductive enc_case :=
 | CRound (e : env) (root : bytes) (m : msg)
          (floats : list (bool * N * bytes)) (inner : list (bytes * bytes * option bytes))
          (pf : list (bytes * (option N * option N))) (pt : list (bytes * (Z * Z)))
-         (strict : bool) (out : bytes) (back : option msg).
+         (strict : bool) (out : bytes) (back : option msg) (xcheck : bool).
 
 Fixpoint table_get {A} (tbl : list (bytes * A)) (k : bytes) : option A :=
   match tbl with
@@ -99,6 +100,20 @@ Definition float_parse_table (tbl : list (bytes * (option N * option N))) (is32 
   | None => None
   end.
 
+(* dec's token-level decoder model (model/CodecDec.v) run on the same document, its library
+   oracles answered from the same tables and from lib/Decimal.v: the two decoder models must agree *)
+Definition dec_oracles (pf : list (bytes * (option N * option N))) (pt : list (bytes * (Z * Z))) : oracles :=
+  mkOracles (fun s => match table_get pf s with Some p => p | None => (None, None) end)
+            (table_get pt)
+            (fun s => match dec_parse s with Some (m, e) => Some (dec_print m e, e) | None => None end).
+
+Definition outcome_msg_agree (a b : outcome msg) (exact : bool) : bool :=
+  match a, b with
+  | Ok x, Ok y => negb exact || msg_eqb x y
+  | Err _, Err _ => true
+  | _, _ => false
+  end.
+
 Definition zz_eqb (a b : Z * Z) : bool := Z.eqb (fst a) (fst b) && Z.eqb (snd a) (snd b).
 Definition zzz_eqb (a b : Z * Z * Z) : bool :=
   Z.eqb (fst (fst a)) (fst (fst b)) && Z.eqb (snd (fst a)) (snd (fst b)) && Z.eqb (snd a) (snd b).
@@ -110,6 +125,15 @@ Definition oneofs_flat_b (e : env) : bool :=
   forallb (fun ns => match snd ns with
                      | SOneof ps => forallb (fun p => match p_path p with [] => false | _ => true end) ps
                      | _ => true
+                     end) e.
+
+(* every static hypothesis of the round-trip theorem, decided on an environment of the run
+   (soundness of the deciders: proofs/CodecEncDecProofs.v) *)
+Definition env_static_ok (e : env) : bool :=
+  oneofs_flat_b e && oneof_names_ok_b e && env_items_ok_b e &&
+  forallb (fun ns => match snd ns with
+                     | SObject ps | SOneof ps => props_ok_b e ps
+                     | SEnum _ _ => true
                      end) e.
 
 Definition enc_check (c : enc_case) : bool :=
@@ -154,8 +178,8 @@ Definition enc_check (c : enc_case) : bool :=
   | CDateParse s r => option_eqb zzz_eqb (date_from_string s) r
   | CValid s valid => Bool.eqb (is_some (strict_parse s)) valid
   | CDecimal s r => opt_bytes_eqb (dec_normalise s) r
-  | CRound e root m floats inner pf pt strict out back =>
-      oneofs_flat_b e &&
+  | CRound e root m floats inner pf pt strict out back xcheck =>
+      env_static_ok e &&
       match encode (float_table floats) (inner_table inner) e root m with
       | Ok b =>
           (if strict then bytes_eqb b out
@@ -163,11 +187,13 @@ Definition enc_check (c : enc_case) : bool :=
                 | Some x, Some y => jv_eq_perm (S (length out)) x y
                 | _, _ => false
                 end) &&
-          match decode_text (float_parse_table pf) (table_get pt) e root out, back with
+          match decode_text (dec_scalar (float_parse_table pf) (table_get pt)) e root out, back with
           | Ok m', Some mb => msg_eqb m' mb
           | Err _, None => true
           | _, _ => false
-          end
+          end &&
+          outcome_msg_agree (decode_text (dec_scalar (float_parse_table pf) (table_get pt)) e root out)
+                            (decode_bytes (dec_oracles pf pt) e root out) xcheck
       | _ => false
       end
   end.
